@@ -518,4 +518,28 @@ def trigB (inp : Input) : Bool :=
     | none => true
     | some l => (trigOf inp (inp.creatorOf l)).all (fun d => p.2.deps.contains d)
 
+/-! ### a default schedule (examples, `simulate`): the main thread runs whenever it can, otherwise the oldest running
+    task finishes; sets are iterated in their stored order -/
+
+def storedWaiting (s : Sys) (n : Name) : List Name :=
+  match s.nodes n with
+  | some nd => nd.waitingMe
+  | none => []
+
+def defaultChoice (s : Sys) : Choice :=
+  match s.susp with
+  | .running => .tick []
+  | .yielded n => .tick (storedWaiting s n)
+  | _ =>
+    match s.running with
+    | m :: _ => .finish m (storedWaiting s m)
+    | [] => .resume
+
+def autoRun (inp : Input) : Nat → Sys → Sys
+  | 0, s => s
+  | k + 1, s =>
+    match step inp s (defaultChoice s) with
+    | some s' => autoRun inp k s'
+    | none => s
+
 end DoitModel.Delayed
